@@ -491,6 +491,29 @@ func ruleWR3(c *Ctx) {
 			continue
 		}
 		c.ok(fn, construct+"|single-write", c.Pos(writes[0].Pos()), "exactly one non-looping write of the whole batch on the append handle")
+		// nothing can fail after the write has succeeded: the bytes are already visible to every reader, so a later
+		// error (fsync, close, a second step) makes the command exit non-zero although it changed the store
+		if wv, ok := writes[0].(*ssa.Call); ok {
+			bad := ""
+			for _, r := range returnsOf(f) {
+				if r.Block().Comment == "recover" || len(r.Results) == 0 {
+					continue
+				}
+				if !(r.Block() == wv.Block() && instrIndex(r) > instrIndex(wv)) && !canReachInstr(wv, r) {
+					continue
+				}
+				for _, sv := range errorSourceValues(r) {
+					if sc, ok := sv.(*ssa.Call); ok && sc == wv {
+						continue
+					}
+					if sc, ok := sv.(*ssa.Call); ok && !canReachInstr(wv, sc) {
+						continue // produced before the write (marshal, open)
+					}
+					bad = fmt.Sprintf("the return at %s can carry an error produced after the write succeeded (%s)", c.Pos(r.Pos()), c.canon(sv))
+				}
+			}
+			c.check(bad == "", fn, construct+"|no-failure-after-write", c.Pos(wv.Pos()), "after the single write succeeds the primitive cannot fail", bad+": the events are in the live log while the command reports failure")
+		}
 	}
 }
 
